@@ -11,6 +11,7 @@ import (
 	"fmt"
 	"io"
 	"sync"
+	"sync/atomic"
 )
 
 // Event is one driver call.
@@ -25,7 +26,10 @@ type Event struct {
 	Err    string   `json:"err,omitempty"`   // injected error returned by this call
 	Rows   int      `json:"rows,omitempty"`  // id of the result set
 	Closed bool     `json:"closed,omitempty"`
+	Seq    int64    `json:"seq"`             // global order across all databases of the process
 }
+
+var globalSeq int64
 
 // CtxKey is the key of the marker value the harness puts into contexts.
 type CtxKey struct{}
@@ -136,6 +140,7 @@ func (s *State) record(e Event) (Event, *Fault) {
 			}
 		}
 	}
+	e.Seq = atomic.AddInt64(&globalSeq, 1)
 	s.events = append(s.events, e)
 	return e, f
 }
